@@ -350,6 +350,18 @@ def finishCol (s : ChainSt) (fin : ColFin) : Except Err ColOut :=
             warns := s.warns
             iterDepths := s.iterDepths }
 
+/-- The pointer depth of the elements of an event collection declared through metadata:
+ATLAS containers hold pointers; a CMS (AOD / miniAOD) collection holds values unless the
+metadata says `element_pointer: True` (`p_depth_element` in process_metadata). -/
+inductive Backend where
+  | atlas | cmsAod | cmsMiniaod
+deriving Repr, DecidableEq
+
+def rootElemDepth : Backend → Option Bool → Nat
+  | .atlas, _ => 1
+  | _, some true => 1
+  | _, _ => 0
+
 /-- a column: a chain starting at the element variable `v0` of the event collection -/
 def runCol (reg : Registry) (rootElem : Term) (steps : List Step) (fin : ColFin) : Except Err ColOut :=
   let s0 : ChainSt := { gamma := [(loopVar 0, ctOf rootElem)], loops := [], nvar := 1,
